@@ -8,6 +8,7 @@ import (
 	"context"
 	"errors"
 	"fmt"
+	"sort"
 	"testing"
 	"time"
 
@@ -168,6 +169,59 @@ func TestVerifReplayTypes(t *testing.T) {
 					}
 				}
 			}
+		}
+	}
+	// GetRollbackTransaction: every former version comes back as it was, whatever the transaction made of the intent
+	for _, shape := range []string{"not handed in again", "same content, same priority", "same content, another priority", "other content, same priority", "deleted"} {
+		fn := "(*datastore/types.Transaction).GetRollbackTransaction"
+		counts[fn]++
+		tm := NewTransactionManager(&vrRollbacker{})
+		tr := NewTransaction("tx-open", tm)
+		tr.SetTimeout(time.Hour)
+		for i := 0; i < 2; i++ {
+			name := fmt.Sprintf("old%d", i)
+			tr.AddIntentContent(name, TransactionIntentOld, int32(10+i), tree.UpdateSlice{cache.NewUpdate([]string{"x"}, []byte{1}, int32(10+i), name, 0)})
+			var nu *cache.Update
+			prio := int32(10 + i)
+			switch shape {
+			case "not handed in again":
+				continue
+			case "same content, same priority":
+				nu = cache.NewUpdate([]string{"x"}, []byte{1}, prio, name, 0)
+			case "same content, another priority":
+				prio = 30
+				nu = cache.NewUpdate([]string{"x"}, []byte{1}, prio, name, 0)
+			case "other content, same priority":
+				nu = cache.NewUpdate([]string{"x"}, []byte{2}, prio, name, 0)
+			}
+			ti := NewTransactionIntent(name, prio)
+			if nu != nil {
+				ti.AddUpdate(nu)
+			} else {
+				ti.SetDeleteFlag()
+			}
+			tr.AddTransactionIntent(ti, TransactionIntentNew)
+		}
+		if err := tr.StartRollbackTimer(); err != nil {
+			t.Fatalf("start timer: %v", err)
+		}
+		in := "the new versions of the two stored intents: " + shape
+		var r *Transaction
+		vrCatch(fn, in, func() { r = tr.GetRollbackTransaction() })
+		if r != nil {
+			var missing []string
+			for k, v := range tr.oldIntents {
+				if r.newIntents[k] != v {
+					missing = append(missing, fmt.Sprintf("%s@%d", k, v.GetPriority()))
+				}
+			}
+			sort.Strings(missing)
+			if len(missing) > 0 || len(r.newIntents) != len(tr.oldIntents) || !r.isRollback {
+				fail(fn, "resubmits_old_versions", in, fmt.Sprintf("the rollback hands in %d intent(s), the former versions are %d; not given back: %v", len(r.newIntents), len(tr.oldIntents), missing))
+			}
+		}
+		if !vrTimerStopped(tr.timer) {
+			tr.timer.Stop()
 		}
 	}
 	// Rollback (called by the rollback timer): exactly one rollback, slot cleared whatever the rollback returns
